@@ -226,8 +226,9 @@ SIM = {
         "props": ["C15"],
         "designs": simcore_designs(["Inv_C15_LiveListComplete", "Inv_C15_LiveInBlotter"], ["Prop_C15_RemovedOnlyAfterComplete"])
         + simrun_designs(["Inv_C15_LiveListComplete"], quick=False),
-        "profiles": LIFECYCLE_PROFILES,
-        "n_quick": 160, "n_thorough": 4000,
+        # two clients (orders and their replacements of the second client must stay in that client's views)
+        "profiles": LIFECYCLE_PROFILES + [{"p_two_clients": 1.0, "two_clients_unlimited": True, "p_replace": 0.5, "p_cancel": 0.2, "n_strategies": (1, 2)}],
+        "n_quick": 200, "n_thorough": 5000,
         "rule": "as C03; blotter membership / live list judged at the end of every update and on every step",
         "assumptions": ASSUME_SIM,
     },
